@@ -9,7 +9,7 @@ RULE = ("(a) io: every stack shape over 1..MaxDim per axis x channels {3-d input
         "read back; a sample also as NPY and NRRD; (b) raster: lattice trees (chains, forks; equal and unequal end radii) at resolutions 1, 1/2, "
         "(1,2,1), 3/2, 7/2, 7/10 ...: shape and every voxel against exact integer membership of the voxel centre (centres exactly on a surface "
         "left open), plus transform_and_save -> read_imgs; non-trivial = asymmetric shape or a tree with a fork; distinct by case content")
-NP = {"u8": np.uint8, "u16": np.uint16, "f32": np.float32, "f64": np.float64}
+NP = {"u8": np.uint8, "u16": np.uint16, "f32": np.float32, "f64": np.float64, "f16": np.float16}
 
 
 def exec_io(c):
@@ -17,8 +17,11 @@ def exec_io(c):
     X, Y, Z, C = c["shape"]
     sh4 = (X, Y, Z, max(C, 1))
     code = np.arange(int(np.prod(sh4)), dtype=np.int64).reshape(sh4)
+    hi = c.get("hi", 0)
     if c["sd"] in ("u8", "u16"):
-        arr = code.astype(NP[c["sd"]])
+        arr = ((65535 if c["sd"] == "u16" else 255) - code if hi else code).astype(NP[c["sd"]])
+    elif hi:
+        arr = np.where(code == 0, 1.0, (509 - 2 * code) / 510.0).astype(NP[c["sd"]])
     else:
         arr = ((code + 0.5) / 255.0).astype(NP[c["sd"]])
     if C == 0:
@@ -52,7 +55,8 @@ def exec_io(c):
     if c["ld"] in ("u8", "u16"):
         vals = [[[[int(v) for v in zz] for zz in yy] for yy in xx] for xx in full]
     else:
-        vals = [[[[int(round(float(v) * 10000)) for v in zz] for zz in yy] for yy in xx] for xx in full]
+        clamp = lambda v: int(round(max(-3.0, min(3.0, float(v))) * 10000)) if np.isfinite(v) else 30000
+        vals = [[[[clamp(v) for v in zz] for zz in yy] for yy in xx] for xx in full]
     pure = int(arr.dtype == arr0.dtype and arr.shape == arr0.shape and np.array_equal(arr, arr0))      # saving does not touch the caller's array
     return {"shape": [int(v) for v in full.shape], "vals": vals, "pure": pure}
 
@@ -70,7 +74,7 @@ def exec_raster(c):
         P = [(-1 if P[o] == -1 else new[P[o]]) for o in old]
         pos = [pos[o] for o in old]
         rad = [rad[o] for o in old]
-    t = Tree(n, id=np.arange(n, dtype=np.int32), pid=np.array(P, dtype=np.int32), type=np.array([1] + [3] * (n - 1), dtype=np.int32),
+    t = Tree(n, source=lib.SRC, id=np.arange(n, dtype=np.int32), pid=np.array(P, dtype=np.int32), type=np.array([1] + [3] * (n - 1), dtype=np.int32),
              x=np.array([p[0] for p in pos], dtype=np.float32), y=np.array([p[1] for p in pos], dtype=np.float32),
              z=np.array([p[2] for p in pos], dtype=np.float32), r=np.array(rad, dtype=np.float32))
     res = [Fraction(a, b) for a, b in c["res"]]
@@ -160,6 +164,13 @@ def run(ctx):
     other = [dict(c, fmt=("npy" if k % 2 else "nrrd"), fdarg="same") for k, c in enumerate(cases[:: (9 if q else 3)])]
     p = ctx.write_cases("io-npy-nrrd", other)
     ctx.run_cases("io-npy-nrrd", other, p, execute, "Judge_ImageStack", keyfn, nontrivial)
+    # saturated voxels and the top of the unit interval; half-precision files and loads (a narrowing unsigned cast is not a documented rescaling: left out)
+    sat = [{"kind": "io", "shape": [2, 1 + k % 2, 2, [0, 1, 3][k % 3]], "sd": sd, "fdarg": fd, "ld": ld, "fmt": "tif", "hi": hi}
+           for hi in (1, 0) for sd in ("u8", "u16", "f32") for fd in ("same", "u8", "u16", "f32", "f16") for k, ld in enumerate(("u8", "u16", "f32", "f64", "f16"))
+           if not (hi == 0 and "f16" not in (fd, ld))
+           and not ((fd if fd != "same" else sd) == "u16" and ld == "u8") and not (sd == "u16" and fd == "u8")]
+    p = ctx.write_cases("io-extremes", sat)
+    ctx.run_cases("io-extremes", sat, p, execute, "Judge_ImageStack", keyfn, nontrivial)
     rc = raster_cases(ctx, 45 if q else 540)
     p = ctx.write_cases("raster", rc)
     ctx.run_cases("raster", rc, p, execute, "Judge_ImageStack", keyfn, nontrivial, per_case_timeout=120)
